@@ -155,6 +155,15 @@ class Ranges:
             return (lo, min(hi, full[1]))
         if op in ("icmp",):
             return (0, 1)
+        if op == "call" and self.wide and (i.callee or "") in RESULT_AT_MOST_ARG:
+            # documented I/O contracts: the number of bytes transferred never exceeds the requested count (the
+            # non-negative part of the result; -1 is outside the clause, cf. the signed guards in wide mode)
+            k = RESULT_AT_MOST_ARG[i.callee]
+            if k < len(i.ops):
+                a = self.base(i.ops[k], depth + 1, blk) if ir.is_local(i.ops[k]) else (
+                    (ir.const_int(i.ops[k]), ir.const_int(i.ops[k])) if ir.const_int(i.ops[k]) is not None else (0, MAXU))
+                if a[1] < (1 << 31):
+                    return (0, a[1])
         if op == "call" and (i.callee or "").startswith(("llvm.umin.",)):
             a, b = self.base(i.ops[0], depth + 1, blk), self.base(i.ops[1], depth + 1, blk)
             return (min(a[0], b[0]), min(a[1], b[1]))
@@ -302,6 +311,9 @@ class Ranges:
             return None       # edge infeasible for this value
         return (lo, hi)
 
+
+# callee -> index of the "count" argument that bounds the (non-negative) result
+RESULT_AT_MOST_ARG = {"safe_file_read": 2, "read": 2, "write": 2, "safe_file_write": 2}
 
 _NEG = {"eq": "ne", "ne": "eq", "ult": "uge", "uge": "ult", "ugt": "ule", "ule": "ugt",
         "slt": "sge", "sge": "slt", "sgt": "sle", "sle": "sgt"}
